@@ -438,7 +438,7 @@ func (r *renderState) filterRaw(rawHTML []byte) {
 //
 // [tag name state]: https://html.spec.whatwg.org/multipage/parsing.html#tag-name-state
 func isHTMLTagNameTerminator(c byte) bool {
-	return c == '\t' || c == '\n' || c == '\f' || c == ' ' || c == '/' || c == '>'
+	return c == '\t' || c == '\n' || c == '\r' || c == '\f' || c == ' ' || c == '/' || c == '>'
 }
 
 func appendAltText(dst []byte, source []byte, parent *Inline) []byte {
